@@ -12,6 +12,7 @@ EXPLANATION = (
     "derive the tree key identically and get deserialises what insert serialised. R5 both transaction commitments range over the whole ordered set "
     "(and the dense tree is built from a sorted vector). R6 the stake commitment ranges over all stakes with key hash(stdcode(txhash)), value stdcode(doc)."
     " R2 also requires next_unsealed to empty the transaction set on every path. R4b: an empty stored value reads as None and only an empty one does. Imports C03.R1 (nothing that reaches a tree takes its order from a hash map)."
+    ' Imports C20.R3 (the count flag of every insertion / removal is tip_906 of the owning state).'
 )
 NOT_DECIDED = ["that Merkle proofs verify and that equal contents give equal roots (novasmt / hash properties, trusted base)",
                "collision resistance of blake3/tmelcrypt hashing"]
